@@ -65,9 +65,19 @@ CHECKS = {
             "DESIGN.md §5 C15"),
     "C19": ("taskmc", "exploration",
             "enumeration of all producer programs up to a length x discoverer start positions, each with deviation-bounded schedule exploration on real clients, compared with what the producer did",
-            "All valid producer programs of length <= 4 (thorough 5) over create / destroy object {1,2} and add / remove service {1,2} (so re-creation under the same UUID with a new cookie and partial service sets are forced), an observer with a three-entry discoverer (specific object with service, any object with two services, bare object) started after every number of producer steps, plain / restarted / current-only, a wait_for_object and a bound lifetime; all schedules with <= 1 (thorough 2) deviations. Oracles after bus activity stopped and a sync: each entry reports exactly the qualifying objects with current ids; events per (entry, object) alternate starting with Created, in incarnation order, and agree with the final view; the lifetime has ended iff its object is gone and never before the producer began destroying it; wait_for_object returns an incarnation not destroyed before the wait began and resolves if the object exists.",
+            "All valid producer programs of length <= 4 (thorough 5) over create / destroy object {1,2} and add / remove service {1,2} (so re-creation under the same UUID with a new cookie and partial service sets are forced), an observer with a six-entry discoverer (specific object with one / with two services, any object with one / with two services, two bare objects) started after every number of producer steps - racing with the producer or synchronised with it so that every later step happens in front of a live discoverer -, plain / restarted at every position / current-only, a wait_for_object, and lifetimes bound early and late to every incarnation there ever was; all schedules with <= 1 (thorough 2) deviations. Oracles after bus activity stopped and a sync: each entry reports exactly the qualifying objects with current ids; events per (entry, object) alternate starting with Created, in incarnation order, and agree with the final view; the lifetime has ended iff its object is gone and never before the producer began destroying it; wait_for_object returns an incarnation not destroyed before the wait began and resolves if the object exists.",
             "find_* returning None is not judged",
             "DESIGN.md §5 C19"),
+    "C17": ("schemamc", "exploration",
+            "bounded-exhaustive enumeration of source texts (token strings, complete single-edit families of the repository's schemas, doc-comment / doc-link / markdown strings, identifier and cross-schema type-graph families) through the real parser, renderer, formatter and generator under catch_unwind, a watchdog and an abort handler",
+            "All token strings of length <= 2 (thorough 3) over the grammar's 82-token terminal-plus-junk alphabet and <= 3 (5) over a 24-token sub-alphabet, with three joiners; for each of the 83 .aldrin files the complete token-level edit family (delete, duplicate, swap, replace by each alphabet token, truncate after each token) and the character-level edit family inside docs (thorough: comments and strings too); all doc strings of <= 3 (4) fragments over 22 markdown fragments at six kinds of documentable position in LF and CR-LF, split over one or two lines; every doc-link path of <= 2 (3) components over 24 names in five link forms under every import environment; inline-content strings inside 17 markdown block contexts (tables with escaped pipes, quotes, lists, footnotes); 49 identifiers at 31 naming positions; two-definition type graphs over local / imported / recursive imported types under eight wrappers; the valid-schema catalogue of C18 with every prelude slot filled. Seven import environments (nothing, resolvable, transitively missing, cycle, unreadable, broken, recursive types) and unreadable / oddly named main schemas. Per input: parse, render every error and warning with four renderers, format, generate (exactly when there are no errors), all under catch_unwind; a second run must give the same diagnostics (multiset when several schemas are involved) and the same formatted text; an input running longer than 20 s or aborting the process (stack overflow) is a violation with its own replay file.",
+            "inputs outside the enumerated families; panics include debug assertions and overflow checks of the harness profile; Generator errors (as opposed to panics) are not judged; the aldrin-gen CLI wrapper is not driven",
+            "DESIGN.md §5 C17"),
+    "C18": ("schemamc", "exploration",
+            "bounded-exhaustive enumeration of syntactically valid schema texts (definition sequences x prelude content at every grammar position x layout) through parse -> format -> parse -> format, compared with the generator's intended reading of the text",
+            "51 definition templates (every grammar alternative of struct / enum / service / function body / event / const / newtype, every type constructor) alone under 7 heads (schema docs, import lists sorted / unsorted / duplicated / commented) in 8 whole-file layouts and every single-gap deviation to 9 separators; every prelude slot of every template x every fill of its kind (comments, docs, attributes, interleavings, empty / unspaced / double-spaced / CR / tab / non-ASCII payloads); all slots filled at once; all ordered pairs of templates (plain, with comment, with doc on the second) and all ordered triples over the 12 core templates (thorough: all x core x all); thorough adds slot pairs and gap pairs; hand-written texts for what the mini-AST cannot express; all 83 repository schemas. Oracles: the parsed AST equals the generator's intended reading (so a comment the parser drops is noticed); the formatter accepts; its output has no syntax error; AST(output) = AST(input) through the public accessors ignoring spans, imports compared sorted; equal multisets of (variant, schema, title) diagnostics; format(output) == output; for repository files the number of comment / doc lines in source, AST and output agree.",
+            "comments and docs are compared by value_inner() (marker, one leading space and trailing white space are layout); import environments: all missing or dep/other resolvable",
+            "DESIGN.md §5 C18"),
     "C07": ("codecmc", "exploration",
             "exhaustive enumeration of byte strings and complete single-edit families, differential against an independent reference decoder",
             "All byte strings of length <= 3 over all 256 bytes, length 4 (thorough 5) over an 80-symbol alphabet, and the complete single-edit family (every substitution, truncation, deletion, insertion; thorough: pairs) of every encoding of a corpus of small trees in V1/V2/mixed epochs are fed to decode, len, skip, split_off and kind of the real crate under catch_unwind with a counting allocator, and every answer is compared with the reference decoder (strict and UTF-8-blind); unknown-field / unknown-variant / opaque-element carriers are round-tripped wherever decoding succeeds.",
